@@ -185,6 +185,8 @@ func (s scen) run(r *vrt.Run) {
 		switch s.red {
 		case "all1":
 			w.Write(o.redValue)
+		case "nil1":
+			w.Write(nil) // a reducer whose single result is the nil value
 		case "all2":
 			w.Write(o.redValue)
 			w.Write("again")
@@ -433,6 +435,8 @@ func (s scen) check(r *vrt.Run, o *obs, outcome string) {
 			return "val:" + fmt.Sprint(vals)
 		case "all0":
 			return "err:" + ErrReduceNoOutput.Error()
+		case "nil1":
+			return "val:<nil>"
 		case "all2":
 			return "panic:多次写入聚合器"
 		case "first1":
@@ -583,10 +587,13 @@ func scenarios() []scen {
 		add(scen{entry: "MapReduce", workers: 2, mb: mb, ctx: "done", bound: hi})
 		add(scen{entry: "MapReduce", workers: 2, mb: mb, ctx: "timeout", bound: lo})
 	}
+	add(scen{entry: "MapReduce", workers: 2, mb: []string{"w1", "w1"}, red: "nil1", bound: lo})
+	add(scen{entry: "MapReduce", workers: 1, mb: []string{}, red: "nil1", bound: lo})
 	// E. other entry points
 	for _, e := range []string{"MapReduceVoid", "MapReduceChan"} {
 		add(scen{entry: e, workers: 2, mb: []string{"w1", "w1"}, bound: hi})
 		add(scen{entry: e, workers: 1, mb: []string{"w1", "w0"}, red: "all0", bound: hi})
+		add(scen{entry: e, workers: 1, mb: []string{"w1"}, red: "nil1", bound: lo})
 		add(scen{entry: e, workers: 2, mb: []string{"w1", "cerrA"}, bound: hi})
 		add(scen{entry: e, workers: 2, mb: []string{"panic", "w1"}, bound: hi})
 		add(scen{entry: e, workers: 2, mb: []string{"w1"}, ctx: "done", bound: hi})
